@@ -78,8 +78,13 @@ fn load_links_for_layout(
     for step in &layout.steps {
         let mut links_per_step = HashMap::new();
 
-        let pattern = format!("{}.????????.link", step.name);
-        let mut path_pattern = PathBuf::from(link_dir);
+        // The step name and the directory are literal text, only the key-id
+        // slot is a pattern.
+        let pattern = format!(
+            "{}.????????.link",
+            glob::Pattern::escape(&step.name)
+        );
+        let mut path_pattern = PathBuf::from(glob::Pattern::escape(link_dir));
         path_pattern.push(pattern);
         let path_pattern = path_pattern.to_str().ok_or_else(|| {
             Error::VerificationFailure(format!(
